@@ -221,7 +221,10 @@ def _worker(args):
         if dict(os.environ) != env0:
             os.environ.clear()
             os.environ.update(env0)
-        return idx, acc.pack(), None
+        pack = acc.pack()
+        for v in pack['violations']:
+            v['task'] = idx
+        return idx, pack, None
     except BaseException:
         return idx, None, traceback.format_exc()
 
@@ -264,6 +267,8 @@ def main(argv=None):
     if a.one_task is not None:
         acc = mod.run_task(tasks[a.one_task])
         print('DIGEST', acc.digest())
+        for s_ in sorted(acc.viol_count):
+            print('SIG', s_)
         return 0
 
     order = list(range(len(tasks)))
@@ -272,7 +277,7 @@ def main(argv=None):
     packs = {}
     nw = max(1, min(a.workers, len(jobs)))
     ctx = multiprocessing.get_context('fork')
-    with ctx.Pool(nw) as pool:
+    with ctx.Pool(nw, maxtasksperchild=1) as pool:   # one fresh fork per shard: a shard's result depends on nothing but the shard
         for idx, pack, err in pool.imap_unordered(_worker, jobs, chunksize=1):
             if err is not None:
                 print('HARNESS-ERROR: task %d of %s crashed:\n%s' % (idx, prop, err))
@@ -326,6 +331,7 @@ def main(argv=None):
     # confirm + write replays for new violations (one per signature first, then up to the cap)
     new.sort(key=lambda v: (v['sig'], len(json.dumps(jsonable(v['case'])))))
     reported = 0
+    shard_sigs = {}
     per_sig = collections.Counter()
     for v in new:
         if reported >= MAX_REPORTED or per_sig[v['sig']] >= 3:
@@ -340,15 +346,32 @@ def main(argv=None):
                 res = [('replay-crash', traceback.format_exc())]
             if not any(s == v['sig'] for s, _m in res):
                 ok = False
+        history = False
         if not ok:
-            print('HARNESS-ERROR: violation %s of %s did not reproduce on replay: %s'
-                  % (v['sig'], prop, json.dumps(jsonable(v['case']))[:500]))
-            status = 2
-            continue
+            # The case does not fail in isolation: the failure may depend on what the shard executed before it
+            # (state leaking between calls is itself a history-dependent defect).  Re-run the whole shard in a
+            # fresh process; if the same signature appears again the violation is real and its replay is the shard.
+            key = ('shard', v.get('task'))
+            if key not in shard_sigs:
+                rr = subprocess.run([sys.executable, '-m', 'mc.core', prop, '--tier', a.tier, '--one-task', str(v.get('task'))],
+                                    capture_output=True, text=True, cwd=VERIF)
+                shard_sigs[key] = set(ln[4:] for ln in rr.stdout.splitlines() if ln.startswith('SIG '))
+            if v['sig'] in shard_sigs[key]:
+                history = True
+            else:
+                print('HARNESS-ERROR: violation %s of %s did not reproduce on replay: %s'
+                      % (v['sig'], prop, json.dumps(jsonable(v['case']))[:500]))
+                status = 2
+                continue
         rdir = os.path.join(VERIF, 'replays', prop)
         os.makedirs(rdir, exist_ok=True)
         blob = {'property_id': prop, 'sig': v['sig'], 'case': jsonable(v['case']), 'msg': v['msg'],
                 'pydl_commit': tree_commit()}
+        if history:
+            blob['needs_history'] = True
+            blob['tier'] = a.tier
+            blob['shard'] = jsonable(tasks[v['task']])
+            blob['msg'] += ' [fails only after the preceding cases of its shard: replay re-runs the shard]'
         name = hashlib.blake2b(json.dumps(blob['case'], sort_keys=True).encode() + v['sig'].encode(),
                                digest_size=6).hexdigest() + '.json'
         path = os.path.join(rdir, name)
@@ -401,7 +424,11 @@ def do_replay(mod, path):
     with open(path) as f:
         blob = json.load(f)
     case = unjson(blob['case'])
-    res = mod.replay(case)
+    if blob.get('needs_history'):
+        acc = mod.run_task(unjson(blob['shard']))
+        res = [(v['sig'], v['msg']) for v in acc.violations if v['sig'] == blob['sig']][:1]
+    else:
+        res = mod.replay(case)
     known = load_known()
     known_sigs = {k['sig'] for k in known.get('known', []) if k['property_id'] == mod.PROP}
     bad = [(s, m) for s, m in res if s not in known_sigs]
